@@ -40,6 +40,7 @@ class State:
         self.rel = []     # (strict, a_bv, b_bv): a < b or a <= b
         self.notes = []   # branch facts in readable form
         self.env = {}     # accumulated literal substitutions (sym, i) -> bit
+        self.defs = {}    # symbol introduced for an arithmetic result -> (Aff, width, exact-as-integers?)
         self.dead = False
 
     def clone(self):
@@ -51,6 +52,7 @@ class State:
         s.rel = list(self.rel)
         s.notes = list(self.notes)
         s.env = dict(self.env)
+        s.defs = dict(self.defs)
         s.dead = self.dead
         return s
 
@@ -695,13 +697,7 @@ class Interp:
                 a = self.inner_bv(st, a) if a.vi is None else BV.const(64, self.enum_variants({'k': 'adt', 'name': a.name, 'args': []})[a.vi][1])
             if isinstance(a, BV) and w:
                 a = self.norm(st, a)
-                r = bv_cast(a, w, ty_signed(dest_ty))
-                if w > a.w and a.aff is not None and not a.signed:
-                    # zero extension keeps the affine form when the interval shows the narrow value did not wrap
-                    lo, hi = self.aff_range(st, a.aff)
-                    if lo >= 0 and hi < (1 << a.w):
-                        r = BV(w, r.bits, r.signed, a.aff)
-                return r
+                return bv_cast(a, w, ty_signed(dest_ty))
         if kind in ('PointerExposeProvenance', 'PointerExposeAddress') and w:
             return self.addr_of(st, a, w)
         if kind in ('PointerWithExposedProvenance', 'PointerFromExposedAddress'):
@@ -812,11 +808,59 @@ class Interp:
             return bv
         return BV(bv.w, nb, bv.signed, bv.aff, bv.nw)
 
-    def fresh_num(self, st, w, tag, r, zeros=0, signed=False, aff=None):
+    def fresh_num(self, st, w, tag, r, zeros=0, signed=False, aff=None, exact=True):
+        """a fresh symbol standing for an arithmetic result: interval `r`, known low zero bits, and - when the result
+        is an affine form of other symbols - its definition (exact: equal as integers, not only modulo 2^w)"""
         name = self.fresh(tag)
         st.rng[name] = list(r)
+        if aff is not None:
+            st.defs[name] = (aff, w, exact)
         bv = BV(w, [0] * zeros + [lit(name, i) for i in range(zeros, w)], signed)
         return self.reduce_bits(st, bv)
+
+    def aff_of(self, st, bv, depth=0):
+        """affine form of a value over the *input* symbols: symbols introduced for arithmetic results are replaced by
+        their definitions (only where that is exact for the width at hand)"""
+        if not isinstance(bv, BV):
+            return None
+        n = self.sym_of(bv)
+        if n is not None and n in st.defs:
+            aff, w, exact = st.defs[n]
+            if w == bv.w or exact:
+                return self.expand_aff(st, aff, depth)
+        a = bv.get_aff()
+        if a is None:
+            return None
+        return self.expand_aff(st, a, depth)
+
+    def exact_aff(self, st, bv):
+        """affine form that equals the value as an integer (no wrap-around): fully known bits, or a result symbol whose
+        definition was shown not to wrap on this path"""
+        if not isinstance(bv, BV):
+            return None
+        n = self.sym_of(bv)
+        if n is not None and n in st.defs:
+            aff, w, exact = st.defs[n]
+            return self.expand_aff(st, aff) if exact else None
+        if bv.has_top():
+            return None
+        a = bv.get_aff()
+        return self.expand_aff(st, a) if a is not None else None
+
+    def expand_aff(self, st, aff, depth=0):
+        if depth > 6:
+            return aff
+        out = Aff({}, aff.const)
+        changed = False
+        for (sym, lo, hi), c in aff.terms.items():
+            d = st.defs.get(sym)
+            whole = d is not None and lo == 0 and (hi == d[1] or (sym in st.rng and st.rng[sym] and max(y for _, y in st.rng[sym]) < (1 << hi)))
+            if whole and d[2]:
+                out = out.add(d[0].scale(c))
+                changed = True
+            else:
+                out = out.add(Aff({(sym, lo, hi): c}, 0))
+        return self.expand_aff(st, out, depth + 1) if changed else out
 
     def binop(self, st, op, a, b, loc=None, fr=None):
         if isinstance(a, Enum) and isinstance(b, Enum) and op in ('Eq', 'Ne'):
@@ -870,23 +914,31 @@ class Interp:
             else:
                 may = lo < 0 or hi >= m
                 must = hi < 0 or lo >= m
-            if not may and res.has_top():
+            symname = None
+            if res.has_top():
                 aff = res.aff
                 if aff is None:
-                    z = min(a.low_zeros(), b.low_zeros()) if b0 != 'Mul' else min(a.w, a.low_zeros() + b.low_zeros())
-                    res = self.fresh_num(st, a.w, b0.lower(), [(lo, hi)], z, a.signed)
+                    ea, eb = a.get_aff(), b.get_aff()
+                    if ea is not None and eb is not None and b0 in ('Add', 'Sub'):
+                        aff = ea.add(eb, 1 if b0 == 'Add' else -1)
+                if b0 == 'Mul':
+                    z = min(a.w, a.low_zeros() + b.low_zeros())
                 else:
-                    res = self.tighten(st, res, lo, hi)
+                    z = min(a.low_zeros(), b.low_zeros())
+                if aff is not None:
+                    z = max(z, min(a.w, aff.low_zeros(a.w)))
+                if not may:
+                    res = self.fresh_num(st, a.w, b0.lower(), [(lo, hi)], z, a.signed, aff, exact=True)
+                elif aff is not None:
+                    res = self.fresh_num(st, a.w, b0.lower(), [(0, m - 1)], z, a.signed, aff, exact=False)
+                symname = self.sym_of(res)
             if wo:
                 if must:
                     ov = BV.const(1, 1)
                 elif not may:
                     ov = BV.const(1, 0)
                 else:
-                    pb = pred('ovf', (b0, a.key(), b.key(), next(self.counter)))
-                    ov = BV(1, [pb])
-                    if res.aff is not None:
-                        res = BV(res.w, res.bits, res.signed, res.aff, atom_key(pb))
+                    ov = BV(1, [pred('ovf', (b0, a.key(), b.key(), next(self.counter), symname, lo, hi, a.w))])
                 st.events.append(('ovf', b0, a, b, 'may-wrap' if may else 'no-wrap', loc, fr.f['name'] if fr else None))
                 return Struct('tuple', [res, ov])
             if may and base in ('Add', 'Sub', 'Mul'):
@@ -957,10 +1009,13 @@ class Interp:
             if ra and rb and not a.signed:
                 if max(y for _, y in ra) < min(x for x, _ in rb) or max(y for _, y in rb) < min(x for x, _ in ra):
                     return BV.const(1, int(op == 'Ne'))
-            if a.has_top() or b.has_top():
+            da, db = self.sym_of(a), self.sym_of(b)
+            if a.has_top() or b.has_top() or (da in st.defs) or (db in st.defs):
                 # bit-level payloads with unknown bits would alias distinct comparisons: key the predicate by the
                 # affine difference (a - b == 0), or make it unique
-                aa, ab = a.get_aff(), b.get_aff()
+                aa, ab = self.aff_of(st, a), self.aff_of(st, b)
+                if not (a.has_top() or b.has_top()) and (aa is None or ab is None):
+                    return self.apply_facts(st, r)
                 if aa is not None and ab is not None:
                     d = aa.add(ab, -1).norm(a.w)
                     if d.is_const():
@@ -1062,6 +1117,13 @@ class Interp:
                     if ra and rb:
                         self.narrow(st, a, min(x for x, _ in rb), max(y for _, y in rb))
                         self.narrow(st, b, min(x for x, _ in ra), max(y for _, y in ra))
+            elif kind == 'ovf':
+                if not truth and payload[4] is not None and payload[4] in st.rng:
+                    nm, lo, hi, w = payload[4], payload[5], payload[6], payload[7]
+                    self.narrow(st, BV.sym(w, nm), max(lo, 0), min(hi, (1 << w) - 1))
+                    d = st.defs.get(nm)
+                    if d is not None:
+                        st.defs[nm] = (d[0], d[1], True)
             elif kind == 'pow2':
                 if truth:
                     a = BV(len(payload), payload)
@@ -1254,11 +1316,98 @@ class Interp:
                 del m[k]
         return outs
 
+    def loops_of(self, f):
+        """loop headers of a function -> set of locals assigned in the loop body (natural loops of DFS back edges)"""
+        lp = f.get('_loops')
+        if lp is not None:
+            return lp
+        blocks = f['blocks']
+        succ = {}
+        for i, b in enumerate(blocks):
+            t = b['t']
+            out = []
+            if t:
+                k = t['k']
+                if k in ('goto', 'drop', 'assert'):
+                    out = [t['t']]
+                elif k == 'switch':
+                    out = [x[1] for x in t['ts']] + [t['o']]
+                elif k == 'call':
+                    out = [t['t']] if t['t'] is not None else []
+                elif k == 'asm':
+                    out = list(t['ts'])
+            succ[i] = [x for x in out if not blocks[x].get('cleanup')]
+        back = []
+        color = {}
+        stack = [(0, iter(succ[0]))]
+        color[0] = 1
+        while stack:
+            n, it = stack[-1]
+            adv = False
+            for m in it:
+                if color.get(m, 0) == 0:
+                    color[m] = 1
+                    stack.append((m, iter(succ[m])))
+                    adv = True
+                    break
+                if color.get(m) == 1:
+                    back.append((n, m))
+            if not adv:
+                color[n] = 2
+                stack.pop()
+        pred = {}
+        for a, outs in succ.items():
+            for b2 in outs:
+                pred.setdefault(b2, []).append(a)
+        lp = {}
+        for src, hdr in back:
+            body = {hdr}
+            work = [src]
+            while work:
+                x = work.pop()
+                if x in body:
+                    continue
+                body.add(x)
+                work.extend(pred.get(x, []))
+            assigned = lp.setdefault(hdr, set())
+            for bi2 in body:
+                b = blocks[bi2]
+                for s_ in b['s']:
+                    if s_['k'] in ('assign', 'setdiscr'):
+                        assigned.add(s_['pl']['l'])
+                t = b['t']
+                if t and t['k'] == 'call':
+                    assigned.add(t['dest']['l'])
+                if t and t['k'] == 'asm':
+                    for o in t['ops']:
+                        if o.get('pl'):
+                            assigned.add(o['pl']['l'])
+        f['_loops'] = lp
+        return lp
+
+    def havoc_loop(self, fr, st, hdr, assigned):
+        """widen at a loop header: every local assigned in the loop body gets a fresh symbolic value"""
+        n = next(self.counter)
+        for l in sorted(assigned):
+            loc = ('L', fr.id, l)
+            if l == 0 or loc not in st.mem:
+                # not yet initialised at the header: a temporary of the body
+                continue
+            t = self.subst_ty(fr.f['locals'][l], fr.sub)
+            try:
+                st.mem[loc] = self.sym_value(t, 'loop%d._%d' % (n, l), st)
+            except Unsupported:
+                st.mem[loc] = Opaque('loop%d._%d' % (n, l))
+        st.events.append(('loop-head', fr.f['name'], hdr, n))
+
     def exec_block(self, fr, bi, st, visiting):
         f = fr.f
         while True:
             if bi in visiting:
                 return self.loop_reentry(fr, bi, st, visiting)
+            lp = self.loops_of(f)
+            if bi in lp:
+                self.havoc_loop(fr, st, bi, lp[bi])
             self.stats['blocks'] += 1
             blk = f['blocks'][bi]
             visiting = visiting | {bi}
@@ -1316,7 +1465,9 @@ class Interp:
             raise Unsupported('terminator %s in %s' % (k, f['name']))
 
     def loop_reentry(self, fr, bi, st, visiting):
-        raise Unsupported('loop in %s (bb%d)' % (fr.f['name'], bi))
+        """back edge: the path summary ends here (one iteration of the body from the widened header state)"""
+        st.events.append(('loop-back', fr.f['name'], bi))
+        return [Outcome(st, 'loop', bi)]
 
     def switch(self, fr, t, st, visiting):
         d = self.operand(st, fr, t['d'])
@@ -1516,7 +1667,13 @@ class Interp:
             for g, a in zip(f['generics'], gargs_for(f, gargs)):
                 sub[g] = a
             if self.trace_calls:
-                st.events.append(('icall', target, tuple(args), loc, fr.f['name']))
+                cid = next(self.counter)
+                st.events.append(('icall', target, tuple(args), loc, fr.f['name'], cid))
+                outs = self.run_fn(f, args, st, sub, fr.consts)
+                for o in outs:
+                    if o.kind == 'ret':
+                        o.st.events.append(('iret', target, o.val, cid))
+                return outs
             return self.run_fn(f, args, st, sub, fr.consts)
         # opaque: unknown callee or trait method on a type parameter
         return self.opaque_call(ctx)
